@@ -36,7 +36,14 @@ func MigrateParams(ctx sdk.Context, storeKey storetypes.StoreKey, legacySubspace
 		newParams.Minters = append(newParams.Minters, &newMinter)
 		var config *codectypes.Any
 		var err error
-		if oldMinter.Type == types.ExponentialStepMintingType {
+		if oldMinter.Type == types.ExponentialStepMintingType && oldMinter.ExponentialStepMinting != nil && !oldMinter.ExponentialStepMinting.Amount.IsNil() && oldMinter.ExponentialStepMinting.Amount.IsZero() {
+			// the previous format allowed an exponential step minter with amount 0 (it mints nothing); the new
+			// validation requires a positive amount, so it is carried over as what it is: no minting
+			config, err = codectypes.NewAnyWithValue(&types.NoMinting{})
+			if err != nil {
+				return err
+			}
+		} else if oldMinter.Type == types.ExponentialStepMintingType {
 			config, err = codectypes.NewAnyWithValue(oldMinter.ExponentialStepMinting)
 			if err != nil {
 				return err
